@@ -104,22 +104,34 @@ class Gen:
             raise Inconclusive('generate_char_fn_ranges not found in the MIR dump')
         self.ex = Executor(prog, [(re.compile(r'^verif_pred$'), pred_summary)] + SM.TABLE)
         dbg = self.fn.debug
-        for k in ('ranges', 'current_range_start', 'iter', 'f'):
+        for k in ('ranges', 'current_range_start', 'f'):
             if k not in dbg:
                 raise Inconclusive('local `%s` not found in the debug info of generate_char_fn_ranges (the function was restructured; the cut-point harness needs to be adapted)' % k)
-        self.l_ranges, self.l_crs, self.l_iter, self.l_f = dbg['ranges'], dbg['current_range_start'], dbg['iter'], dbg['f']
+        self.l_ranges, self.l_crs, self.l_f = dbg['ranges'], dbg['current_range_start'], dbg['f']
         self.head = self.find_loop_head()
+        # the iterator local of the cut loop: the operand of the `&mut` whose result is passed to `next`
+        self.l_iter = None
+        blk = self.fn.blocks[self.head]
+        call = [x for x in blk if x[0] == 'call'][0]
+        arg = call[3][0][1][0]
+        for x in blk:
+            if x[0] == 'assign' and x[1] == (arg, ()) and x[2][0] == 'ref':
+                self.l_iter = x[2][1][0]
+        if self.l_iter is None:
+            raise Inconclusive('iterator local of the scan loop not found at the loop head')
         self.ex.cut_points = {(self.fn.name, self.head)}
         self.extra_locals = {}
         self.inclusive = True
         self.END = MAXCP
+        self.START = 0
         self.havocked = set()
+        self.havoc_names = set()     # debug-named scalar locals found to change inside the scan loop (per context)
         self.havoc_constraints = []
 
     def find_loop_head(self):
         for bb, ins in self.fn.blocks.items():
             for st in ins:
-                if st[0] == 'call' and st[2][0] == 'path' and 'Iterator>::next' in st[2][1] and 'Range' in st[2][1]:
+                if st[0] == 'call' and st[2][0] == 'path' and re.match(r'^<(std::ops::|core::ops::)?Range(Inclusive)?<u32> as (std::iter::)?Iterator>::next$', st[2][1]):
                     return bb
         raise Inconclusive('loop head (a `next` call on a Range / RangeInclusive iterator) not found')
 
@@ -150,7 +162,7 @@ class Gen:
             if loc in (self.l_ranges, self.l_crs, self.l_iter, self.l_f) or loc not in self.extra_locals:
                 continue
             v = self.extra_locals[loc]
-            if isinstance(v, S):
+            if isinstance(v, S) and name in self.havoc_names:
                 if v.w == 1:
                     fr.locals[loc] = S(1, z3.Bool('havoc_%s' % name))
                 else:
@@ -158,10 +170,10 @@ class Gen:
                     self.havoc_constraints.append(z3.And(x >= 0, x < (1 << v.w)))
                     fr.locals[loc] = S(v.w, x)
                 self.havocked.add(name)
-            elif isinstance(v, FnP):
-                pass
             else:
-                raise Inconclusive('loop-carried variable `%s` of unsupported shape %r' % (name, v))
+                # not a scalar (the predicate pointer, an outer iterator, ...): kept as it was when the loop was entered;
+                # every path back to the loop head is checked to leave it unchanged (main)
+                pass
         return st, fr.fid
 
 
@@ -306,6 +318,18 @@ def main():
             failures.append((name, pred_from_model(m, pts + [0, 1, SLO - 1, SHI + 1, MAXCP - 1, MAXCP]), {str(p): str(ev(p)) for p in points}))
             return False
 
+        contexts = {}
+        order = []
+
+        def add_context(it, fr):
+            key = (it.f[0].v, it.f[1].v, len(it.f) == 3)
+            if key not in contexts:
+                if len(contexts) >= 6:
+                    raise Inconclusive('the scan loop is entered in more than 6 different contexts')
+                contexts[key] = {'start': key[0], 'end': key[1], 'inclusive': key[2],
+                                 'extra': {k: v for k, v in fr.locals.items() if k not in (g.l_iter, g.l_crs, g.l_ranges)}}
+                order.append(key)
+
         # ---------------- base
         ex.reset_solver()
         ex.solver.add(scalar(cstar))
@@ -331,13 +355,49 @@ def main():
             if not ok:
                 rep.violation('base initial-state', 'state at the first loop-head arrival is not (i=0, no open range, empty table): %r %r %r' % (it, crs, rg), {'it': repr(it)})
             # remember the other live locals of the head state (e.g. the predicate pointer copies)
-            for k, v in fr.locals.items():
-                if k not in (g.l_iter, g.l_crs, g.l_ranges):
-                    g.extra_locals[k] = v
+            if shape_ok:
+                add_context(it, fr)
         samples.append({'obligation': 'base', 'paths': nbase})
 
-        # ---------------- step and exit, for current_range_start = None / Some(s)
-        for crs_kind in ('none', 'some'):
+        # ---------------- step and exit, for current_range_start = None / Some(s), for every context in which the scan
+        # loop is entered (one for the plain scan; one per block when the scan is split into several loops over blocks)
+        ci = 0
+        while ci < len(order):
+          ctx = contexts[order[ci]]
+          ci += 1
+          g.inclusive, g.END, g.START, g.extra_locals = ctx['inclusive'], ctx['end'], ctx['start'], ctx['extra']
+          # which user variables are carried around the loop?  One iteration is explored from an arbitrary (i, open range)
+          # with the other variables at their value on loop entry; a variable that some path changes is havocked from
+          # then on, until no further variable changes (a variable no path changes keeps its entry value by induction)
+          g.havoc_names = set()
+          for _round in range(6):
+              changed = set()
+              for crs_kind in ('none', 'some'):
+                  ex.reset_solver()
+                  i = z3.Int('i')
+                  s = z3.Int('s')
+                  exit_i = g.END + 1 if g.inclusive else g.END
+                  ex.solver.add(i >= g.START, i <= exit_i - 1, s >= 0, s < i)
+                  g.havoc_constraints = []
+                  st, fid = g.head_state(i, False, None if crs_kind == 'none' else s)
+                  if g.havoc_constraints:
+                      ex.solver.add(*g.havoc_constraints)
+                  st.aux['cut_armed'] = False
+                  for kind, s2, val in ex.run(st, base=0):
+                      if kind != 'cut':
+                          continue
+                      fr2 = s2.frames[s2.stack[-1]]
+                      for name_, loc_ in g.fn.debug.items():
+                          if loc_ in (g.l_ranges, g.l_crs, g.l_iter, g.l_f) or loc_ not in g.extra_locals or name_ in g.havoc_names:
+                              continue
+                          v_ = g.extra_locals[loc_]
+                          if isinstance(v_, S) and repr(fr2.locals.get(loc_)) != repr(v_):
+                              changed.add(name_)
+              if not changed:
+                  break
+              g.havoc_names |= changed
+          g.havoc_constraints = []
+          for crs_kind in ('none', 'some'):
             for exhausted in (False, True):
                 ex.reset_solver()
                 i = z3.Int('i')
@@ -348,7 +408,7 @@ def main():
                 exit_i = g.END + 1 if g.inclusive else g.END
                 i_inv = z3.IntVal(exit_i) if exhausted else i
                 hyp_terms = [cstar, cfresh, prev_scalar(i_inv), i_inv - 1]
-                hyp = [scalar(cstar), scalar(cfresh), i >= 0, i <= exit_i - 1, s >= 0, s <= MAXCP,
+                hyp = [scalar(cstar), scalar(cfresh), i >= g.START, i <= exit_i - 1, s >= 0, s <= MAXCP,
                        inv(i_inv, crs, last_end, cov, cstar, hyp_terms)]
                 ex.solver.add(*hyp)
                 st, fid = g.head_state(i if not exhausted else z3.IntVal(g.END), exhausted, crs)
@@ -373,10 +433,21 @@ def main():
                         pushed = fr.locals[g.l_ranges].p[0]
                         crs2v = fr.locals[g.l_crs]
                         it2 = fr.locals[g.l_iter]
-                        if g.inclusive:
-                            i2 = z3.IntVal(exit_i) if (it2.f[2].conc() and it2.f[2].v) else zi(it2.f[0])
+                        if exhausted:
+                            # the loop was left and entered again with a fresh iterator (scan split into blocks)
+                            if not (isinstance(it2, A) and len(it2.f) in (2, 3) and all(isinstance(x, S) and x.conc() for x in it2.f)) or (len(it2.f) == 3 and it2.f[2].v):
+                                raise Inconclusive('the scan loop is re-entered with an iterator the harness cannot describe: %r' % (it2,))
+                            i2 = z3.IntVal(it2.f[0].v)
+                            add_context(it2, fr)
                         else:
-                            i2 = zi(it2.f[0])
+                            if len(it2.f) == 3:
+                                i2 = z3.IntVal(exit_i) if (it2.f[2].conc() and it2.f[2].v) else zi(it2.f[0])
+                            else:
+                                i2 = zi(it2.f[0])
+                            for k_, v_ in g.extra_locals.items():
+                                name_ = [n for n, l in g.fn.debug.items() if l == k_]
+                                if name_ and name_[0] not in g.havocked and not isinstance(v_, S) and repr(fr.locals.get(k_)) != repr(v_):
+                                    raise Inconclusive('loop-carried variable `%s` changes inside the scan loop and is not described by the invariant' % name_[0])
                     else:
                         # return: loop exit
                         pushed = val.p[0]
@@ -402,7 +473,7 @@ def main():
                         # exit: the table is exact at the Skolem point
                         vc('returned table covers exactly the scalar values satisfying the predicate', [],
                            F(cstar) == cv, pts, s2.pc)
-                samples.append({'obligation': 'step/exit from loop head', 'open_range': crs_kind, 'iterator_exhausted': exhausted, 'paths': npaths})
+                samples.append({'obligation': 'step/exit from loop head', 'scan_block': [g.START, g.END], 'open_range': crs_kind, 'iterator_exhausted': exhausted, 'paths': npaths})
         # ---------------- failures: replay
         seen = set()
         unconfirmed = []
